@@ -65,6 +65,12 @@ trunc = z3.Function("trunc", R, I)                # int(x) truncation toward zer
 re_ok = z3.Function("re_ok", S, B)                # pattern compiles
 re_search = z3.Function("re_search", S, S, B)     # re.search(p, s) is not None
 setord = z3.Function("setord", I, Obj, I, Obj)    # hashseed, set, position -> element  (C17)
+list_of_seq = z3.Function("list_of_seq", SeqObj, Obj)   # the list holding exactly the items of a sequence
+seq_of_list = z3.Function("seq_of_list", Obj, SeqObj)
+conforms = z3.Function("conforms", Obj, Obj, B)     # C02: value conforms to schema (spec relation)
+winok = z3.Function("winok", Obj, I, I, Obj, I, B)  # forall j<k. conforms(E[eoff+j], v[voff+j])
+winwit = z3.Function("winwit", Obj, I, I, Obj, I, I)
+propf = z3.Function("propf", Obj, Obj, Obj)         # schema.props.get(name): registry.get(name, Nil)
 all_in = z3.Function("all_in", S, S, B)           # every character of the 1st string occurs in the 2nd
 all_in_wit = z3.Function("all_in_wit", S, S, I)
 
@@ -297,6 +303,31 @@ def base_axioms() -> List[z3.BoolRef]:
     ]
     for e in range(0, 19):
         ax.append(pow10(z3.IntVal(e)) == 10 ** e)
+    # str(x) of a str is the str itself
+    ax.append(z3.ForAll([o], z3.Implies(is_StrV(o), str_s(o) == sval(o)), patterns=[str_s(o)]))
+    # list <-> sequence views (PathHolder contents): round trip, length and items
+    sq = z3.Const("sq", SeqObj)
+    ax.append(z3.ForAll([sq], z3.And(seq_of_list(list_of_seq(sq)) == sq, llen(list_of_seq(sq)) == z3.Length(sq),
+                                     is_Ref(list_of_seq(sq))),
+                        patterns=[list_of_seq(sq)]))
+    ax.append(z3.ForAll([sq, j], z3.Implies(z3.And(0 <= j, j < z3.Length(sq)), lat(list_of_seq(sq), j) == sq[j]),
+                        patterns=[lat(list_of_seq(sq), j)]))
+    # propf(S, k) is Props.get(k) on S's props:  registry.get(k, Nil)   (definition)
+    reg = attr("_registry")(attr("_props")(o))
+    ax.append(z3.ForAll([o, k], propf(o, k) == z3.If(has(reg, k), dget(reg, k), NilV), patterns=[propf(o, k)]))
+    # winok(E, eo, k, v, vo)  <=>  forall j<k. conforms(E[eo+j], v[vo+j])     (definition, two halves)
+    E_, v_ = z3.Consts("wE wv", Obj)
+    eo, kk, vo, ix = z3.Ints("weo wk wvo wix")
+    ww = winwit(E_, eo, kk, v_, vo)
+    ax.append(z3.ForAll([E_, eo, kk, v_, vo, ix],
+                        z3.Implies(z3.And(winok(E_, eo, kk, v_, vo), eo <= ix, ix < eo + kk),
+                                   conforms(lat(E_, ix), lat(v_, vo + (ix - eo)))),
+                        patterns=[z3.MultiPattern(winok(E_, eo, kk, v_, vo), lat(E_, ix))]))
+    ax.append(z3.ForAll([E_, eo, kk, v_, vo],
+                        z3.Implies(z3.Not(winok(E_, eo, kk, v_, vo)),
+                                   z3.And(eo <= ww, ww < eo + kk,
+                                          z3.Not(conforms(lat(E_, ww), lat(v_, vo + (ww - eo)))))),
+                        patterns=[winok(E_, eo, kk, v_, vo)]))
     # == between heap objects of standard data is reflexive and symmetric (identity shortcut)
     o2 = z3.Const("o2", Obj)
     ax.append(z3.ForAll([o], ref_eq(o, o), patterns=[ref_eq(o, o)]))
